@@ -9,7 +9,10 @@ CONSTANTS
   InitStores <- CollStores
   PublishAfterUnlock = FALSE
   CreatedRevalidated = TRUE
-  SubSer = TRUE
+  SubSer = FALSE
+  MayCancel = FALSE
+  SnapAtCommit = TRUE
+  CollectLive = TRUE
 VIEW ViewNoHist
-INVARIANTS TypeOK CommitValid EffectOnce LoserCodes Converged
+INVARIANTS TypeOK CommitValid EffectOnce LoserCodes Converged NoCommitMissed
 CHECK_DEADLOCK FALSE
